@@ -1,15 +1,17 @@
 #!/bin/bash
 # Semantics-preserving edits: no check may print a VIOLATION line (exit 0, or exit 2 = undecided, are both fine).
 cd "$(dirname "$0")/.."; VERIF="$(pwd)"; BASE="${TMPDIR:-/var/tmp}"
-export GOFLAGS=-mod=mod GOPROXY=off GOSUMDB=off GOTOOLCHAIN=local VERIF_NO_REPLAY=1
+export GOFLAGS=-mod=mod GOPROXY=off GOSUMDB=off GOTOOLCHAIN=local
+# one snapshot of /repo's working tree at start, so that later edits of /repo do not leak into the run
+SNAP=$(mktemp -d "$BASE/benign-snap-XXXXXX"); rsync -a --exclude .git /repo/ "$SNAP"/; trap 'rm -rf "$SNAP"' EXIT
 bad=0
 for patch in "$VERIF"/selftest/benign/*.patch; do
-  S=$(mktemp -d "$BASE/benign-XXXXXX"); rsync -a --exclude .git /repo/ "$S"/
+  S=$(mktemp -d "$BASE/benign-XXXXXX"); rsync -a "$SNAP"/ "$S"/
   (cd "$S" && patch -p1 -s --no-backup-if-mismatch < "$patch") || { echo "BENIGN skipped: $(basename $patch)"; rm -rf "$S"; continue; }
   (cd "$S" && go test -vet=off -count=1 ./varlink/... ./cmd/varlink-go-interface-generator/... >/dev/null 2>&1) || echo "BENIGN WARNING: suite fails with $(basename $patch)"
   res=""
   for P in $(python3 -c "import json; print(' '.join(c['property_id'] for c in json.load(open('$VERIF/MANIFEST.json'))['checks']))"); do
-    out=$("$VERIF/bin/govc" -prop "$P" -repo "$S" -verif "$VERIF" -out "$S.out" -timeout 5 -j 8 2>&1); rc=$?
+    out=$(VERIF_OUT="$S.out" "$VERIF/check" "$P" --repo "$S" 2>&1); rc=$?
     if echo "$out" | grep -q "^VIOLATION"; then res="$res $P:ALARM"; bad=$((bad+1)); echo "$out" | grep "^VIOLATION\|UNDECIDED " | head -3; elif [ $rc -eq 2 ]; then res="$res $P:undecided"; fi
   done
   echo "BENIGN $(basename $patch):${res:- all checks silent (exit 0)}"
